@@ -37,32 +37,23 @@ Qed.
 Lemma ext_of_eq : forall s s', ls_errors s' = ls_errors s -> ext_errors s s'.
 Proof. intros s s' H. exists []. rewrite app_nil_r. exact H. Qed.
 
+(* case analysis of mergeResult: every branch *)
+Ltac mr_cases :=
+  unfold merge_result;
+  repeat match goal with
+         | |- context [if ?b then _ else _] => destruct b
+         | |- context [match ?x with _ => _ end] => destruct x
+         end.
+
 Ltac ext_solve :=
-  first [ apply ext_refl
-        | apply ext_add_error
-        | apply ext_of_eq; first [apply merge_target_errors | apply merge_pairwise_errors | apply merge_buckets_errors | reflexivity] ].
+  unfold ext_errors;
+  rewrite ?merge_target_errors, ?merge_pairwise_errors, ?merge_buckets_errors;
+  cbn [ls_errors fail add_error add_errored set_data];
+  first [ exists []; rewrite app_nil_r; reflexivity
+        | eexists; rewrite <- ?app_assoc; reflexivity ].
 
 Lemma merge_result_ext : forall f res items batch s, ext_errors s (merge_result f res items batch s).
-Proof.
-  intros f res items batch s. unfold merge_result.
-  destruct (rs_err res); [ext_solve|].
-  destruct (rs_body res) as [| |resp]; [ext_solve|destruct (non2xx (rs_status res)); ext_solve|].
-  set (he := match get_loc [PName k_errors] resp with Some (JArr (_ :: _)) => true | _ => false end).
-  set (s1 := if he then add_error s LE_FETCH f else s).
-  assert (H1 : ext_errors s s1) by (subst s1; destruct he; ext_solve).
-  eapply ext_trans; [exact H1|]. clearbody s1. clear H1.
-  destruct (is_nullish (get_loc (f_datapath f) resp)).
-  - destruct (is_entity_kind (f_kind f) && _); [ext_solve|].
-    destruct (negb he && non2xx (rs_status res)); [ext_solve|]. destruct (negb he); ext_solve.
-  - destruct (get_loc (f_datapath f) resp) as [rd|]; [|ext_solve].
-    destruct items as [|l [|l2 r]].
-    + destruct rd; ext_solve.
-    + destruct batch as [bs|].
-      * destruct rd as [| | | |[|b0 b]|]; try ext_solve. destruct (Nat.eqb _ _); ext_solve.
-      * ext_solve.
-    + destruct rd as [| | | |[|b0 b]|]; try ext_solve.
-      destruct batch as [bs|]; destruct (Nat.eqb _ _); ext_solve.
-Qed.
+Proof. intros f res items batch s. mr_cases; ext_solve. Qed.
 
 Section Mono.
   Variable St : Type.
@@ -115,12 +106,13 @@ Definition loud_body (k : fault) : bool :=
 
 Lemma loud_body_error : forall f k r items batch s,
   f_datapath f = datapath_of (f_kind f) -> loud_body k = true ->
-  ls_errors (merge_result f (apply_fault k r) items batch s) <> [].
+  ls_errors (merge_result f (apply_fault k r) items batch s) <> [] /\
+  ls_data (merge_result f (apply_fault k r) items batch s) = ls_data s.
 Proof.
   intros f k r items batch s Hd Hk.
   destruct k; try discriminate; unfold merge_result, apply_fault, mk_response; cbn [rs_err rs_body rs_status];
-    try (apply app_one_nonempty);
-    rewrite Hd; destruct (f_kind f); cbn; try (apply app_one_nonempty).
+    try (split; [apply app_one_nonempty|reflexivity]);
+    rewrite Hd; destruct (f_kind f); cbn; (split; [apply app_one_nonempty|reflexivity]).
 Qed.
 
 Lemma count_body : forall answer root_answer rq g,
@@ -134,18 +126,24 @@ Proof.
   unfold errors_member. destruct (flat_map snd (map (answer (rq_fetch rq)) (rq_reps rq))); reflexivity.
 Qed.
 
-Lemma count_error : forall answer root_answer f k rq (bs : list (bytes * list rpath)) items s,
-  f_datapath f = datapath_of FBatch -> (k = FtCountLess \/ k = FtCountMore) ->
-  rq_reps rq = map fst bs -> bs <> [] ->
-  ls_errors (merge_result f (apply_fault k (clean_response answer root_answer rq false)) items (Some (map snd bs)) s) <> [].
+Lemma fail_errors_ne : forall s k f, ls_errors (fail s k f) <> [].
+Proof. intros. cbn. apply app_one_nonempty. Qed.
+
+(* a wrong `_entities` count (entity and batch fetches): an error, nothing merged *)
+Lemma count_outcome : forall answer root_answer f k rq items batch s,
+  f_datapath f = datapath_of (f_kind f) -> (k = FtCountLess \/ k = FtCountMore) -> rq_reps rq <> [] ->
+  (f_kind f = FEntity /\ length (rq_reps rq) = 1%nat \/
+   f_kind f = FBatch /\ exists bs : list (list rpath), batch = Some bs /\ length bs = length (rq_reps rq)) ->
+  ls_errors (merge_result f (apply_fault k (clean_response answer root_answer rq false)) items batch s) <> [] /\
+  ls_data (merge_result f (apply_fault k (clean_response answer root_answer rq false)) items batch s) = ls_data s.
 Proof.
-  intros answer root_answer f k rq bs items s Hd Hk Hr Hne.
+  intros answer root_answer f k rq items batch s Hd Hk Hne Hkind.
   remember (map fst (map (answer (rq_fetch rq)) (rq_reps rq))) as ents eqn:Hents.
-  assert (Hlen : length ents = length bs) by (subst ents; rewrite !map_length, Hr, map_length; reflexivity).
-  assert (Hpos : (0 < length bs)%nat) by (destruct bs; [congruence|simpl; lia]).
+  assert (Hlen : length ents = length (rq_reps rq)) by (subst ents; rewrite !map_length; reflexivity).
+  assert (Hpos : (0 < length (rq_reps rq))%nat) by (destruct (rq_reps rq); [congruence|simpl; lia]).
   assert (Hne' : ents <> []) by (intro E; rewrite E in Hlen; simpl in Hlen; lia).
   assert (exists g, apply_fault k (clean_response answer root_answer rq false) = on_body (map_entities g) (clean_response answer root_answer rq false)
-                    /\ length (g ents) <> length bs) as (g & Hg & Hgl).
+                    /\ length (g ents) <> length (rq_reps rq)) as (g & Hg & Hgl).
   { destruct Hk; subst k.
     - eexists; split; [reflexivity|]. cbv beta.
       pose proof (app_removelast_last JNull Hne') as H.
@@ -155,23 +153,43 @@ Proof.
       + rewrite app_length. simpl. lia. }
   rewrite Hg. unfold merge_result.
   assert (He : rs_err (on_body (map_entities g) (clean_response answer root_answer rq false)) = false) by reflexivity.
-  rewrite He, count_body. rewrite <- Hents. rewrite Hd.
+  rewrite He, count_body. rewrite <- Hents.
   set (errs := errors_member (flat_map snd (map (answer (rq_fetch rq)) (rq_reps rq)))).
-  assert (Hrd : get_loc (datapath_of FBatch) (JObj ((k_data, JObj [(k_entities, JArr (g ents))]) :: errs)) = Some (JArr (g ents))).
-  { unfold datapath_of. cbn [get_loc obj_get]. change (bytes_eqb k_data k_data) with true. cbv iota.
+  set (resp := JObj ((k_data, JObj [(k_entities, JArr (g ents))]) :: errs)).
+  destruct (negb (valid_numbers resp)).
+  { destruct (non2xx _); (split; [apply fail_errors_ne|reflexivity]). }
+  assert (Hent : get_loc [PName k_data; PName k_entities] resp = Some (JArr (g ents))).
+  { subst resp. cbn [get_loc obj_get]. change (bytes_eqb k_data k_data) with true. cbv iota.
     cbn [get_loc obj_get]. change (bytes_eqb k_entities k_entities) with true. reflexivity. }
-  rewrite Hrd. cbn [is_nullish].
-  match goal with |- ls_errors (match items with [] => ?A | _ => _ end) <> [] => idtac end.
-  set (s1 := if match get_loc [PName k_errors] (JObj ((k_data, JObj [(k_entities, JArr (g ents))]) :: errs)) with
-                | Some (JArr (_ :: _)) => true | _ => false end then add_error s LE_FETCH f else s).
-  destruct items as [|l [|l2 r]].
-  - apply app_one_nonempty.
-  - destruct (g ents) as [|b0 b] eqn:G; [apply app_one_nonempty|].
-    rewrite map_length. destruct (Nat.eqb (length bs) (length (b0 :: b))) eqn:E; [|apply app_one_nonempty].
-    apply Nat.eqb_eq in E. congruence.
-  - destruct (g ents) as [|b0 b] eqn:G; [apply app_one_nonempty|].
-    rewrite map_length. destruct (Nat.eqb (length bs) (length (b0 :: b))) eqn:E; [|apply app_one_nonempty].
-    apply Nat.eqb_eq in E. congruence.
+  rewrite Hent.
+  set (s1 := if match get_loc [PName k_errors] resp with Some (JArr (_ :: _)) => true | _ => false end then add_error s LE_FETCH f else s).
+  assert (H1 : ls_data s1 = ls_data s) by (subst s1; match goal with |- ls_data (if ?c then _ else _) = _ => destruct c end; reflexivity).
+  destruct Hkind as [[Hk1 Hl1]|[Hk2 (bs & -> & Hbl)]].
+  - rewrite Hk1. destruct (Nat.eqb (length (g ents)) 1) eqn:E.
+    + apply Nat.eqb_eq in E. lia.
+    + cbn [negb]. split; [apply fail_errors_ne|exact H1].
+  - rewrite Hk2. rewrite Hd, Hk2. change (datapath_of FBatch) with [PName k_data; PName k_entities]. rewrite Hent. cbn [is_nullish].
+    destruct items as [|l [|l2 r]].
+    + split; [apply fail_errors_ne|exact H1].
+    + destruct (g ents) as [|b0 b] eqn:G; [split; [apply fail_errors_ne|exact H1]|].
+      destruct (Nat.eqb (length bs) (length (b0 :: b))) eqn:E; [|split; [apply fail_errors_ne|exact H1]].
+      apply Nat.eqb_eq in E. lia.
+    + destruct (g ents) as [|b0 b] eqn:G; [split; [apply fail_errors_ne|exact H1]|].
+      destruct (Nat.eqb (length bs) (length (b0 :: b))) eqn:E; [|split; [apply fail_errors_ne|exact H1]].
+      apply Nat.eqb_eq in E. lia.
+Qed.
+
+(* NaN inside data (numbers as NaN and a NaN member in the data object): the body does not count as JSON *)
+Lemma nan_outcome : forall f r items batch s d rest,
+  rs_err r = false -> rs_body r = BJson (JObj ((k_data, JObj d) :: rest)) ->
+  ls_errors (merge_result f (apply_fault FtNaNData r) items batch s) <> [] /\
+  ls_data (merge_result f (apply_fault FtNaNData r) items batch s) = ls_data s.
+Proof.
+  intros f r items batch s d rest He Hb. unfold merge_result, apply_fault, on_body. cbn [rs_err rs_body rs_status]. rewrite He, Hb.
+  unfold map_data. cbn [map fst snd]. change (bytes_eqb k_data k_data) with true. cbv iota.
+  match goal with |- context [valid_numbers ?j] => assert (Hv : valid_numbers j = false) end.
+  { cbn [nanify]. cbn. reflexivity. }
+  rewrite Hv. cbn [negb]. destruct (non2xx _); (split; [apply fail_errors_ne|reflexivity]).
 Qed.
 
 (* ---- requests are only appended ---- *)
@@ -199,39 +217,60 @@ Ltac reqs_solve := first [ reflexivity | apply merge_target_reqs | apply merge_p
 
 Lemma merge_result_reqs : forall f res items batch s, ls_reqs (merge_result f res items batch s) = ls_reqs s.
 Proof.
-  intros f res items batch s. unfold merge_result.
-  destruct (rs_err res); [reqs_solve|].
-  destruct (rs_body res) as [| |resp]; [reqs_solve|destruct (non2xx (rs_status res)); reqs_solve|].
-  set (he := match get_loc [PName k_errors] resp with Some (JArr (_ :: _)) => true | _ => false end).
-  set (s1 := if he then add_error s LE_FETCH f else s).
-  assert (H1 : ls_reqs s1 = ls_reqs s) by (subst s1; destruct he; reflexivity).
-  rewrite <- H1. clearbody s1. clear H1.
-  destruct (is_nullish (get_loc (f_datapath f) resp)).
-  - destruct (is_entity_kind (f_kind f) && _); [reqs_solve|].
-    destruct (negb he && non2xx (rs_status res)); [reqs_solve|]. destruct (negb he); reqs_solve.
-  - destruct (get_loc (f_datapath f) resp) as [rd|]; [|reqs_solve].
-    destruct items as [|l [|l2 r]].
-    + destruct rd; reqs_solve.
-    + destruct batch as [bs|].
-      * destruct rd as [| | | |[|b0 b]|]; try reqs_solve. destruct (Nat.eqb _ _); reqs_solve.
-      * reqs_solve.
-    + destruct rd as [| | | |[|b0 b]|]; try reqs_solve.
-      destruct batch as [bs|]; destruct (Nat.eqb _ _); reqs_solve.
+  intros f res items batch s. mr_cases; rewrite ?merge_target_reqs, ?merge_pairwise_reqs, ?merge_buckets_reqs; reflexivity.
 Qed.
 
 Lemma prepare_request : forall f d items d' rq b, prepare f d items = PLoad d' rq b ->
   rq_fetch rq = f_id f /\
-  (f_kind f = FBatch -> exists bs : list (bytes * list rpath), bs <> [] /\ rq_reps rq = map fst bs /\ b = Some (map snd bs)).
+  (f_kind f = FBatch -> exists bs : list (bytes * list rpath), bs <> [] /\ rq_reps rq = map fst bs /\ b = Some (map snd bs)) /\
+  (f_kind f = FEntity -> length (rq_reps rq) = 1%nat).
 Proof.
   intros f d items d' rq b H. unfold prepare in H. destruct (f_kind f) eqn:K.
   - assert (rq = mk_request f []).
     { destruct items as [|l [|l2 r]]; try (inversion H; reflexivity).
       destruct (get_loc l d) as [[| | | | |]|]; inversion H; reflexivity. }
-    subst rq. split; [reflexivity|discriminate].
+    subst rq. split; [reflexivity|split; discriminate].
   - destruct (render_rep (f_rep f) (items_data d items)) as [v' [bts|]]; [|discriminate].
-    destruct (bytes_eqb bts b_null || bytes_eqb bts b_empty_obj); [discriminate|]. inversion H; subst. split; [reflexivity|discriminate].
+    destruct (bytes_eqb bts b_null || bytes_eqb bts b_empty_obj); [discriminate|]. inversion H; subst. split; [reflexivity|split; [discriminate|reflexivity]].
   - destruct (batch_prepare (f_rep f) items d []) as [d2 bs] eqn:B. destruct bs as [|b0 bs']; [discriminate|].
-    inversion H; subst. split; [reflexivity|]. intros _. exists (b0 :: bs'). split; [discriminate|split; reflexivity].
+    inversion H; subst. split; [reflexivity|]. split; [|discriminate]. intros _. exists (b0 :: bs'). split; [discriminate|split; reflexivity].
+Qed.
+
+(* every loud fault on a loaded fetch: at least one error, nothing merged *)
+Lemma loud_outcome : forall answer root_answer f k d0 items0 d rq batch items s,
+  (forall id, exists m, fst (root_answer id) = JObj m) ->
+  f_datapath f = datapath_of (f_kind f) -> loud (f_kind f) k = true ->
+  prepare f d0 items0 = PLoad d rq batch ->
+  let res := apply_fault k (clean_response answer root_answer rq match f_kind f with FSingle => true | _ => false end) in
+  ls_errors (merge_result f res items batch s) <> [] /\ ls_data (merge_result f res items batch s) = ls_data s.
+Proof.
+  intros answer root_answer f k d0 items0 d rq batch items s Hrobj Hd Hloud HP. cbv zeta.
+  destruct (prepare_request _ _ _ _ _ _ HP) as (Hrq & Hb & He).
+  destruct (loud_body k) eqn:LB; [apply loud_body_error; assumption|].
+  destruct k; try discriminate; simpl in Hloud.
+  - (* count less *)
+    destruct (f_kind f) eqn:K; [discriminate| |].
+    + apply count_outcome; [rewrite Hd, K; reflexivity|left; reflexivity| |left; split; [exact K|exact (He eq_refl)]].
+      specialize (He eq_refl). destruct (rq_reps rq); [discriminate|discriminate].
+    + destruct (Hb eq_refl) as (bs & Hne & Hreps & Hbatch). subst batch.
+      apply count_outcome; [rewrite Hd, K; reflexivity|left; reflexivity| |right; split; [exact K|]].
+      * rewrite Hreps. destruct bs; [congruence|discriminate].
+      * exists (map snd bs). split; [reflexivity|]. rewrite Hreps, !map_length. reflexivity.
+  - (* count more *)
+    destruct (f_kind f) eqn:K; [discriminate| |].
+    + apply count_outcome; [rewrite Hd, K; reflexivity|right; reflexivity| |left; split; [exact K|exact (He eq_refl)]].
+      specialize (He eq_refl). destruct (rq_reps rq); [discriminate|discriminate].
+    + destruct (Hb eq_refl) as (bs & Hne & Hreps & Hbatch). subst batch.
+      apply count_outcome; [rewrite Hd, K; reflexivity|right; reflexivity| |right; split; [exact K|]].
+      * rewrite Hreps. destruct bs; [congruence|discriminate].
+      * exists (map snd bs). split; [reflexivity|]. rewrite Hreps, !map_length. reflexivity.
+  - (* NaN inside data *)
+    destruct (f_kind f) eqn:K.
+    + unfold clean_response. destruct (Hrobj (rq_fetch rq)) as (m & Hm).
+      destruct (root_answer (rq_fetch rq)) as [dd errs] eqn:RA. simpl in Hm. subst dd.
+      eapply nan_outcome; reflexivity.
+    + unfold clean_response. eapply nan_outcome; reflexivity.
+    + unfold clean_response. eapply nan_outcome; reflexivity.
 Qed.
 
 Section Dichotomy.
@@ -240,6 +279,7 @@ Section Dichotomy.
   Variable kind_of : N -> fkind.
   Variable F : N -> option fault.
   Hypothesis Hloud : forall id k, F id = Some k -> loud (kind_of id) k = true.
+  Hypothesis Hrobj : forall id, exists m, fst (root_answer id) = JObj m.
 
   Let e0 := faulty_exchange answer root_answer kind_of no_faults.
   Let eF := faulty_exchange answer root_answer kind_of F.
@@ -260,17 +300,11 @@ Section Dichotomy.
     destruct (should_skip f s); [left; split; [reflexivity|intros rq' H'; left; exact H']|].
     destruct (prepare f (ls_data s) (select_items (ls_data s) (f_path f))) as [d|d rq batch] eqn:P;
       [left; split; [reflexivity|intros rq' H'; left; exact H']|].
-    destruct (prepare_request _ _ _ _ _ _ P) as [Hrq Hb].
+    destruct (prepare_request _ _ _ _ _ _ P) as (Hrq & Hb & Hent).
     unfold eF, e0, faulty_exchange, no_faults. rewrite Hrq, Hk.
     destruct (F (f_id f)) as [k|] eqn:EF.
     - right. cbn [fst]. specialize (Hloud _ _ EF). rewrite Hk in Hloud.
-      match goal with |- ls_errors (merge_result f ?r _ _ ?st) <> [] => set (s' := st) end.
-      destruct (loud_body k) eqn:LB.
-      + apply loud_body_error; assumption.
-      + assert (Hc : (k = FtCountLess \/ k = FtCountMore) /\ f_kind f = FBatch).
-        { destruct k; try discriminate; simpl in Hloud; destruct (f_kind f); try discriminate; auto. }
-        destruct Hc as [Hc Hfk]. destruct (Hb Hfk) as (bs & Hne & Hreps & Hbatch). subst batch.
-        rewrite Hfk. apply count_error; try assumption. rewrite Hd, Hfk. reflexivity.
+      apply (loud_outcome answer root_answer f k _ _ _ _ _ _ _ Hrobj Hd Hloud P).
     - left. cbn [fst]. split; [reflexivity|].
       intros rq' Hin. rewrite merge_result_reqs in Hin.
       assert (Hin' : In rq' (ls_reqs s ++ [rq])).
